@@ -514,3 +514,39 @@ for _ym in (False, True):
         define(_LONG.format(name=('ym' if _ym else 'dt') + ('_neg' if _ni else '_pos'), ym=_ym, ni=_ni, top=5 if _ym else 6,
                             kind='xs:yearMonthDuration' if _ym else 'xs:dayTimeDuration', neg='negated' if _ni else 'positive',
                             vals='0, 1, 2737908, 3000000, 3000001 or 10^8 years' if _ym else '0, 1, 999999999, 10^9, 10^9+1, 10^12 or 5*10^12 days'), globals())
+
+
+# --- added after the round-4 baseline reports: comparisons use the implicit timezone of the dynamic context, as subtraction does --------------
+
+_GEN = {'eq': '=', 'ne': '!=', 'lt': '<', 'le': '<=', 'gt': '>', 'ge': '>='}
+T_ITZ = {k: P31.parse('($z %s $d, $d %s $z, $z %s $d, $t %s $u)' % (k, k, _GEN[k], k)) for k in OPS}
+T_ITZ_SUB = P31.parse('$z - $d')
+
+
+@ob(budget=300, bound='z = 2000-01-01T12:00:00Z, d = 2000-01-01T<h>:00:00 without timezone for h from {2, 7, 12, 17, 22}, context timezone from {-05:00, +05:00, Z, '
+                      'none} (indices chosen by the solver): the six value comparisons in both operand orders and the general comparisons order the two values as '
+                      'instants with d in the implicit timezone (UTC when the context has none), in agreement with the sign of z - d; xs:time likewise; the '
+                      'caller\'s value keeps having no timezone',
+    funcs=[O2 + ':evaluate__value_comparison_operators', 'elementpath/xpath_tokens/base.py:XPathToken.get_comparison_data',
+           'elementpath/datatypes/datetime.py:AbstractDateTime._compare'])
+def implicit_timezone_in_comparisons(hi: int, oi: int) -> bool:
+    """
+    pre: 0 <= hi <= 4 and 0 <= oi <= 3
+    post: _
+    """
+    h = (2, 7, 12, 17, 22)[[k for k in range(5) if k == hi][0]]
+    off = (-300, 300, 0, None)[[k for k in range(4) if k == oi][0]]
+    z = _DT7(2000, 1, 1, 12, 0, 0, tzinfo=_TZ7(_dtm.timedelta(0)))
+    d = _DT7(2000, 1, 1, h, 0, 0)
+    from elementpath.datatypes import Time as _T7
+    t, u = _T7(12, 0, 0, tzinfo=_TZ7(_dtm.timedelta(0))), _T7(h, 0, 0)
+    tz = None if off is None else _TZ7(_dtm.timedelta(minutes=off))
+    x, y = 12 * 60, h * 60 - (off or 0)            # the two instants in minutes of that day, UTC
+    v = {'z': z, 'd': d, 't': t, 'u': u}
+    for k, f in OPS.items():
+        r = T_ITZ[k].evaluate(XPathContext(item=1, variables=v, timezone=tz))
+        if r != [f(x, y), f(y, x), f(x, y), f(x, y)]:
+            return False
+    diff = T_ITZ_SUB.evaluate(XPathContext(item=1, variables=v, timezone=tz))
+    diff = diff[0] if isinstance(diff, list) else diff
+    return diff.seconds == (x - y) * 60 and d.tzinfo is None and u.tzinfo is None and str(d) == '2000-01-01T%02d:00:00' % h
